@@ -106,7 +106,7 @@ Definition aval_of_wval (v : wval) : aval :=
    would panic *)
 
 (* len(b) < n, for the small constants of the explicit length checks *)
-Fixpoint len_ltb (b : bytes) (n : nat) : bool :=
+Fixpoint len_ltb (b : bytes) (n : nat) {struct n} : bool :=
   match n with
   | O => false
   | S k => match b with [] => true | _ :: t => len_ltb t k end
